@@ -31,8 +31,20 @@ SHAPE = {"X": (0, 1, 0), "Y": (0, 1, 0), "Z": (0, 1, 0), "SNOT": (0, 1, 0), "SQR
          "ISWAP": (0, 2, 0), "SQRTISWAP": (0, 2, 0), "TOFFOLI": (2, 1, 0), "FREDKIN": (1, 2, 0), "GLOBALPHASE": (0, 0, 1)}
 # the gates the spin-chain processors accept (resolvable into their native set); SQRTSWAP and the others are refused
 ACCEPTED = list(SHAPE)
-REFUSED = ["SQRTSWAP", "BERKELEY", "CPHASE", "S", "T"]
-SHAPE_REFUSED = {"SQRTSWAP": (0, 2, 0), "BERKELEY": (0, 2, 0), "CPHASE": (1, 1, 1), "S": (0, 1, 0), "T": (0, 1, 0)}
+# every other gate name of the library (operations.GATE_CLASS_MAP and the legacy names of circuit/_decompose.py) that the model's
+# gate alphabet (py/translate/decomp.py: GNAMES) knows: refused by the tree as found (model verdict: an error); should a change
+# make one of them accepted, the load must still meet the property (routed onto coupled qubits, same unitary)
+SHAPE_REFUSED = {"SQRTSWAP": (0, 2, 0), "BERKELEY": (0, 2, 0), "CPHASE": (1, 1, 1), "S": (0, 1, 0), "T": (0, 1, 0),
+                 "CZ": (1, 1, 0), "CY": (1, 1, 0), "CS": (1, 1, 0), "CT": (1, 1, 0), "CRX": (1, 1, 1), "CRY": (1, 1, 1),
+                 "CRZ": (1, 1, 1), "SWAPalpha": (0, 2, 1), "MS": (0, 2, 1), "RZX": (0, 2, 1), "R": (0, 1, 1), "QASMU": (0, 1, 1)}
+REFUSED = list(SHAPE_REFUSED)
+# names and aliases outside the model's gate alphabet: judged by the oracle only (refusal, or a load that meets the property)
+SHAPE_ALIAS = {"H": (0, 1, 0), "CX": (1, 1, 0), "iSWAP": (0, 2, 0), "SWAPALPHA": (0, 2, 1), "IDLE": (0, 1, 1)}
+XSHAPE = dict(SHAPE)
+XSHAPE.update(SHAPE_REFUSED)
+XSHAPE.update(SHAPE_ALIAS)
+# proper arguments of the gate classes that take more than one (oracle witnesses; None = the scalar of the witness)
+XARGS = {"MS": [0.3, 0.4], "R": [0.3, 0.4], "QASMU": [0.3, 0.4, 0.5]}
 MODES = ["ASAP", "ALAP", None]
 
 
@@ -270,9 +282,9 @@ def in_class(w):
     if w["mode"] not in MODES:
         return False
     for g in w["gates"]:
-        if g[0] not in SHAPE:
+        if g[0] not in XSHAPE:
             return False
-        nc, nt, par = SHAPE[g[0]]
+        nc, nt, par = XSHAPE[g[0]]
         qs = list(g[1]) + list(g[2])
         if len(g[1]) != nt or len(g[2]) != nc or len(set(qs)) != len(qs) or not all(0 <= q < N for q in qs):
             return False
@@ -378,6 +390,10 @@ def check_property(w):
         with SC.patched(None):
             tl, co = proc.load_circuit(qc, schedule_mode=w["mode"])
     except Exception as e:
+        other = sorted({g[0] for g in w["gates"] if g[0] not in SHAPE})
+        if other:
+            # a name outside the set the spin-chain processors accept: refusing is allowed, compiling it wrongly is not
+            return False, f"refused ({type(e).__name__}): {other} not among the gates the processors accept"
         return True, f"load_circuit raises {type(e).__name__}: {str(e)[:80]}"
     # second sentence of the property: every exchange gate of the transpiled circuit sits on a coupling of its qubits
     try:
@@ -416,6 +432,40 @@ def zero_rotation_possible(w):
     """a rotation by the angle 0 (exactly) somewhere in the transpiled circuit: the compiled instruction has duration 0.
     Decided on the INPUT: an input rotation / phase gate with angle exactly 0 (every fixed rule angle is non-zero)."""
     return any(g[0] in ("RX", "RY", "RZ", "PHASEGATE") and g[3] == 0 for g in w["gates"])
+
+
+GRID_TOL = 1e-10          # resolution of Processor.get_full_tlist: grid points at most this far apart are merged
+
+
+def tiny_rotation(w):
+    """class `grid-step-below-tol` (known finding): some rotation of the input has an angle so small that its pulse - duration
+    |theta| / (4 pi * strength) - is not longer than the resolution 1e-10 of the merged time grid.  The theorems exclude it by
+    hypothesis (SepAll / GapsResolved: grid points more than tol apart); the code merges the end point of that pulse away and
+    then reads the coefficients of the channel one slot off.  Decided on the INPUT (angles and strengths), not on the code."""
+    if w.get("kind") == "history":
+        return any(tiny_rotation(step_witness(w, s)) for s in w["steps"])
+    if w.get("kind") != "load":
+        return False
+    par = w.get("params") or {}
+    for g in w["gates"]:
+        if g[0] in ("RX", "RY", "RZ", "PHASEGATE") and isinstance(g[3], (int, float)) and g[3] != 0 and g[1]:
+            q = g[1][0]
+            top = 0.0
+            for k, dflt in (("sx", 0.25), ("sz", 1.0)):
+                v = par.get(k, dflt)
+                top = max(top, float(v[q] if isinstance(v, list) and q < len(v) else (v if not isinstance(v, list) else dflt)))
+            if abs(g[3]) / (4 * math.pi * top) <= 1.05 * GRID_TOL:
+                return True
+    return False
+
+
+TINY_WITNESS = {"kind": "load", "setup": "linear", "N": 1, "mode": "ASAP", "params": None,
+                "gates": [["RX", [0], [], 1.0], ["RZ", [0], [], 1e-9], ["RX", [0], [], 1.0]]}
+
+
+def class_recorded(cls="grid-step-below-tol"):
+    from vlib.core import load_findings
+    return any(f.get("status") == "known" and f.get("class") == cls for f in load_findings("C06"))
 
 
 def no_pulse(w, drops=False):
@@ -575,7 +625,10 @@ class C06(PropertyCheck):
                    "apart (C14 SepAll); control channels without pulse (rows of zeros) are left out of the model's channel list",
                    "classes excluded from the oracle sweep exactly when the source has the defective shape: circuits with a gate on "
                    "more than two qubits (transpile without pre-decomposition), circuits with a rotation by exactly 0 (compile keeps "
-                   "zero-duration instructions), circuits that need no pulse (load_circuit cannot store an empty pulse set)"]
+                   "zero-duration instructions), circuits that need no pulse (load_circuit cannot store an empty pulse set)",
+                   "class grid-step-below-tol (known finding, excluded by SepAll / GapsResolved): a rotation whose pulse is not longer "
+                   "than the absolute resolution 1e-10 of Processor.get_full_tlist (|theta| <= 4 pi 1e-10 strength); members are "
+                   "evaluated and reported as KNOWN-FINDING once the class is recorded in known_findings.json"]
     rule = ("case = (topology, chain length, schedule mode, hardware parameter vectors, gate list with placements and angles), or a "
             "history = sequence of 2-7 such loads on ONE processor instance (same circuit again, circuits alternately, through "
             "run_state(qc=...), one compiler object for every load); distinct by canonical JSON; non-trivial = at least one pulse "
@@ -1091,17 +1144,22 @@ class C06(PropertyCheck):
                         continue
                     for qs in itertools.permutations(range(N), nc + nt):
                         cases.append((setup, N, "ASAP", None, [[name, list(qs[:nt]), list(qs[nt:]), (6 if par else None)]]))
-        if not ctx.thorough:      # 4 and 5 qubits: every two-qubit placement of the exchange gates, sampled others
+        if not ctx.thorough:      # 4 and 5 qubits: every ordered placement of EVERY two-qubit name (accepted and refused)
             for setup in ("linear", "circular"):
                 for N in (4, 5):
-                    for qs in itertools.permutations(range(N), 2):
-                        cases.append((setup, N, "ASAP", None, [["ISWAP", list(qs), [], None]]))
+                    for name in ACCEPTED + REFUSED:
+                        nc, nt, par = XSHAPE[name]
+                        if nc + nt != 2 or (N == 5 and name in ("CNOT", "CSIGN", "SWAP", "SQRTISWAP")):
+                            continue          # (5 qubits: the accepted ones are sampled by the random stream, ISWAP is kept)
+                        for qs in itertools.permutations(range(N), 2):
+                            cases.append((setup, N, "ASAP", None, [[name, list(qs[:nt]), list(qs[nt:]), (6 if par else None)]]))
         self._load_cases(ctx, res, cases, "single", e2e_budget=(300 if ctx.thorough else 12))
         res.exhaustive = True
         res.notes.append(f"exhaustive: the coupling-label rule for every ordered pair of distinct qubits on both topologies, "
                          f"2..{40 if ctx.thorough else 12} qubits ({nlab} pairs); every placement (ordered, any distance) of every "
-                         f"accepted gate incl. TOFFOLI/FREDKIN and five refused gates on 1-{top} qubits x 2 "
-                         f"topologies" + ("" if ctx.thorough else ", every ordered ISWAP placement on 4 and 5 qubits") +
+                         f"accepted gate incl. TOFFOLI/FREDKIN and of the {len(REFUSED)} other gate names of the library (refused) on 1-{top} "
+                         f"qubits x 2 topologies" + ("" if ctx.thorough else ", every ordered placement of every two-qubit name on 4 "
+                                                     "and (refused names, ISWAP) 5 qubits") +
                          f" ({len(cases)} circuits); then seeded random circuits (per-qubit dyadic parameter vectors, three "
                          f"schedule modes, negative / zero / > 2 pi angles), a direct-compile stream with malformed gate lists")
         # random circuits, end to end
@@ -1152,10 +1210,19 @@ class C06(PropertyCheck):
     def oracle_replay(self, ctx, w):
         return check_property(w)
 
+    def finding_matches(self, witness, finding):
+        if finding.get("class") == "grid-step-below-tol":
+            return tiny_rotation(witness)
+        return PropertyCheck.finding_matches(self, witness, finding)
+
     def _excluded(self, w):
         """classes the hypotheses of end_to_end_partial exclude for the source as it is now"""
         if w.get("kind") == "label":
             return False
+        if tiny_rotation(w) and not class_recorded():
+            # excluded by hypothesis (SepAll); once the class is a recorded known finding its members are evaluated and
+            # matched by finding_matches (KNOWN-FINDING), not skipped
+            return True
         if w.get("kind") == "history":
             return any(self._excluded(step_witness(w, s)) for s in w["steps"])
         pre, drops, empty_ok = source_flags()
@@ -1197,10 +1264,38 @@ class C06(PropertyCheck):
         # histories: every accepted gate loaded twice on one processor; A B A; through run_state; one compiler object
         for w in self._systematic_histories(three=False):
             yield w
+        yield from self._alphabet()
+        # rotations whose pulse is at / below the resolution 1e-10 of the merged grid (class grid-step-below-tol) and just above
+        for a in (1e-9, -1e-9, 1e-10, 1e-12, 2e-9, 1e-8):
+            for name in ("RZ", "RX", "PHASEGATE"):
+                yield {"kind": "load", "setup": "linear", "N": 1, "mode": "ASAP", "params": None,
+                       "gates": [["RX", [0], [], 1.0], [name, [0], [], a], ["RX", [0], [], 1.0]]}
+        yield {"kind": "load", "setup": "circular", "N": 3, "mode": None, "params": None,
+               "gates": [["PHASEGATE", [0], [], 1e-9], ["RZ", [1], [], 0.7], ["RZ", [0], [], 1e-9], ["SWAP", [0, 1], [], None]]}
+
+    def _alphabet(self, wide=False):
+        """EVERY other gate name of the library (GATE_CLASS_MAP, legacy names, aliases: CZ, CX, H, iSWAP, IDLE, ...) on
+        neighbouring AND distant qubits: the load is refused, or it meets the property (coupled, same unitary)"""
+        for name, (nc, nt, par) in XSHAPE.items():
+            if name in SHAPE or nc + nt > 2:
+                continue
+            a = XARGS.get(name, 0.7 if par else None)
+            for setup, N in (("linear", 4), ("circular", 5)) + ((("linear", 5), ("circular", 4)) if wide else ()):
+                if nc + nt == 1:
+                    places = [[0], [N - 1]]
+                elif wide:
+                    places = [list(q) for q in itertools.permutations(range(N), 2)]
+                else:
+                    places = [[0, 1], [1, 0], [0, 2], [2, 0], [1, 3], [3, 1], [0, N - 1], [N - 1, 1]]
+                for qs in places:
+                    for mode in (MODES if wide else ["ASAP"]):
+                        yield {"kind": "load", "setup": setup, "N": N, "mode": mode, "params": None,
+                               "gates": [["RY", [qs[0]], [], 0.5], [name, qs[:nt], qs[nt:], a]]}
 
     def _systematic_grid(self):
         """every placement of every accepted gate x angle x mode (sampled by oracle_always, walked through by oracle_search)"""
         ang = self.ANG
+        yield from self._alphabet(wide=True)
         for w in self._systematic_histories(three=True):
             yield w
         for setup in ("linear", "circular"):
@@ -1271,20 +1366,23 @@ class C06(PropertyCheck):
         setup = rng.choice(["linear", "circular"])
         N = rng.randint(2 if setup == "circular" else 1, 5)
         names = [n for n in ACCEPTED if three or SHAPE[n][0] + SHAPE[n][1] <= 2]
+        if zero and rng.random() < 0.12:            # any name of the library (refusal or a correct load)
+            names = names + [n for n in XSHAPE if n not in SHAPE]
         gs = []
         for _ in range(rng.randint(1, 7)):
             n = rng.choice(names)
-            nc, nt, par = SHAPE[n]
+            nc, nt, par = XSHAPE[n]
             if nc + nt > N:
                 continue
             qs = rng.sample(range(N), nc + nt)
             a = None
             if par:
                 ch = [rng.uniform(-7, 7), rng.uniform(-14, 14), rng.choice([-1, 1]) * rng.uniform(2 * math.pi, 4 * math.pi),
-                      -math.pi, 2 * math.pi, -2 * math.pi, 4 * math.pi, -4 * math.pi, 9.5, math.pi / 2, -3 * math.pi / 4, 1e-3]
+                      -math.pi, 2 * math.pi, -2 * math.pi, 4 * math.pi, -4 * math.pi, 9.5, math.pi / 2, -3 * math.pi / 4, 1e-3,
+                      1e-6, rng.choice([1e-9, -5e-10, 3e-9, 1e-12])]
                 if zero:
                     ch += [0.0, 0.0]
-                a = rng.choice(ch)
+                a = XARGS.get(n) or rng.choice(ch)
             gs.append([n, qs[:nt], qs[nt:], a])
         params = None
         if rng.random() < 0.7:
